@@ -242,7 +242,7 @@ class Contract:
     def __init__(self, func, params, requires=(), ensures=None, exc_ensures=None,
                  raises=None, raises_any=False, invariants=None, uses=(), returns=None,
                  effects=None, concretize=None, native=None, pre_hook=None, post_hook=None,
-                 notes='', propagate_opaque=True, max_paths=None, exit_hook=None, variant=None, cuts=None, call_hook=None, lazy_len=False, model_not_callable=False, numeric_split=False):
+                 notes='', propagate_opaque=True, max_paths=None, exit_hook=None, variant=None, cuts=None, call_hook=None, lazy_len=False, model_not_callable=False, numeric_split=False, noreturn=False):
         self.func = func
         self.params = params
         self.requires = list(requires)
@@ -268,6 +268,7 @@ class Contract:
         self.lazy_len = lazy_len
         self.model_not_callable = model_not_callable
         self.numeric_split = numeric_split
+        self.noreturn = noreturn          # the function never returns normally (always raises one of ``raises``)
         self.call_hook = call_hook    # callable(E, env_locals) -> value | None (None: use the generic rule)
         self._cut_nodes = {}
         self.key = func if not variant else '%s#%s' % (func, variant)
@@ -581,6 +582,9 @@ def _apply_contract(E, c, fn, args, kwargs, node, env, site):
         if c.effects:
             c.effects(E, env.locals, 'raise')
         exc = VExc(cls, [], sym=True, uid=E.fresh('exc'))
+        if cls == 'ParseError':
+            # every ParseError of the package carries (message, tag): AST obligation C06.structural.parse_errors_have_message_and_tag
+            exc = VExc(cls, [VS(z3.String(E.fresh('message'))), VS(z3.String(E.fresh('tagtext')))], sym=False, uid=E.fresh('exc'))
         E.trace.append(('contract-raise', c.func, exc))
         env.locals['exc'] = exc
         E.old_stash = old
@@ -595,7 +599,10 @@ def _apply_contract(E, c, fn, args, kwargs, node, env, site):
             if E.decide(2, 'call %s raises' % c.func) == 1:
                 raise_with('Exception')
         elif c.raises:
-            k = E.decide(len(c.raises) + 1, 'call %s raises' % c.func)
+            if c.noreturn:
+                k = 1 + E.decide(len(c.raises), 'call %s raises which' % c.func) if len(c.raises) > 1 else 1
+            else:
+                k = E.decide(len(c.raises) + 1, 'call %s raises' % c.func)
             if k > 0:
                 raise_with(exc_canon(c.raises[k - 1]))
         if c.effects:
